@@ -52,6 +52,9 @@ CHECKS = {
  "C14": ("model_checking", "deviation-bounded exhaustive enumeration of environment answers behind harness-owned seams (virtual process pool, directory-listing order, hash seed, cwd, root spelling)",
          "8 trees x every pool chunk size x chunk execution order on a virtual pool that pickles the callable per chunk, every permutation of every directory listing (complete product or <= 2 deviating directories), 4 working directories x 6 root spellings, and one fresh interpreter per PYTHONHASHSEED (64 quick / 512 thorough): normalised lint --json and spdx output must equal the reference run",
          "kernel scheduling of real worker processes is not explored (virtual pool; one free-running real-pool run per tree is sampling); hash seeds are a finite range", "4/C14"),
+ "C16": ("fault_enumeration", "exhaustive enumeration of malformed-input shapes and of single (and pairwise) I/O fault points, each under every subcommand",
+         "every REUSE.toml key x 13 TOML value shapes (root and nested; key pairs), 15 broken TOML files, 15 dep5 cases, 11 hostile byte classes x {header, .license}, 5 LICENSES/ oddities, and an OSError (4 errnos) injected at the k-th project-file open for every k (every pair in thorough), each under up to 8 subcommands: exit status in {0,1,2}, no escaping exception, configuration errors name the file, other files still reported",
+         "python-debian's own acceptance of odd dep5 files is not judged; network stubbed", "4/C16"),
 }
 PENDING_REASON = "check not built yet in this session (design in DESIGN.md section 4); not claimed until its machinery exists"
 
